@@ -153,6 +153,11 @@ def run_tlc(
         shutil.rmtree(meta, ignore_errors=True)
     r = TLCResult(p.stdout, p.returncode, time.time() - t0)
     if r.error:
+        try:
+            with open(os.path.join(work, module + ".lasterr.out"), "w") as f:
+                f.write(p.stdout)
+        except OSError:
+            pass
         raise TLCError(f"TLC failed (rc={p.returncode}) on {module} / {cfg}:\n{r.error}")
     return r
 
